@@ -134,16 +134,29 @@ func (w *World) deliverEvents(events []Event) {
 			dispatch(h.brWorkload, brQ)
 		}
 	}
+	// a request wakes the scenario whose namespace it names (in a pair: possibly the OTHER scenario's queue)
 	for _, r := range roQ.items {
-		if r.Name == RolloutName {
-			w.Q.RoPending = true
+		if t := w.scenarioOf(r); t != nil {
+			t.Q.RoPending = true
 		}
 	}
 	for _, r := range brQ.items {
-		if r.Name == RolloutName {
-			w.Q.BrPending = true
+		if t := w.scenarioOf(r); t != nil {
+			t.Q.BrPending = true
 		}
 	}
+}
+
+func (w *World) scenarioOf(r reconcile.Request) *World {
+	if r.Name != RolloutName {
+		return nil
+	}
+	for _, t := range []*World{w, w.Peer, w.parent} {
+		if t != nil && t.NS == r.Namespace {
+			return t
+		}
+	}
+	return nil
 }
 
 // afterReconcile applies the reconcile result to the queue state the way controller-runtime does:
